@@ -290,8 +290,8 @@ def b_bace(a):
     from enspara.msm import bace as bace_mod
     r = rs(a["seed"])
     n = a["n"] + 2
-    C = r.randint(1, 30, size=(n, n)).astype(np.float64)
-    C = C + C.T + np.diag(r.randint(200, 400, size=n).astype(np.float64))
+    C = r.randint(20, 60, size=(n, n)).astype(np.float64)
+    C = C + C.T + np.diag(r.randint(2000, 4000, size=n).astype(np.float64))
     return (lambda: bace_mod.bace(C, 2 + a["seed"] % 2, n_procs=1)), [C]
 
 
